@@ -206,7 +206,102 @@ def p_der_rt(r, s):
     return None
 
 
-PROPS = {"sign": p_sign, "verify_ref": p_verify_ref, "sign_k": p_sign_k, "der_rt": p_der_rt}
+def _h256int(m):
+    return int.from_bytes(hashlib.sha256(hashlib.sha256(m).digest()).digest(), "big")
+
+
+def p_key_reuse(d, d2, zs, order, msgs):
+    """State kept across calls.  ONE PrivateKey object, ONE public-point object and ONE Signature object live
+    through a whole call history (the other predicates build fresh objects per case): sign / deterministic_k /
+    sign_message with the digests zs in the given order (repeats included), verification of every
+    (digest, signature) combination on the one point, in-place edits of Signature.r / .s and of
+    PrivateKey.secret, callers mutating a returned Signature, and a Signature.parse history.  Every result
+    must be what the independent reference gives for the CURRENT arguments and fields."""
+    key = PrivateKey(d)
+    pub = key.point
+    q = ecref.mul(d, ecref.G)
+    if (pub.x.num, pub.y.num) != q:
+        return "public key differs from the reference d*G"
+    ref = {}
+    for z in zs:
+        ref[z] = ecref.ecdsa_sign(d, z)
+    returned = []
+    for step, i in enumerate(order):
+        z = zs[i]
+        k = key.deterministic_k(z)
+        want_k = ecref.rfc6979_k(d, z.to_bytes(32, "big"))
+        if k != want_k:
+            return f"call {step}: deterministic_k({z}) on a reused key is {k}, RFC 6979 gives {want_k}"
+        sig = key.sign(z)
+        if (sig.r, sig.s) != ref[z]:
+            return f"call {step}: sign({z}) on a reused key gives ({sig.r}, {sig.s}), a fresh signature is {ref[z]}"
+        if sig.der() != ecref.der(*ref[z]):
+            return f"call {step}: DER of the signature returned for {z} is not the canonical encoding"
+        returned.append((z, sig))
+    # a caller altering the object it was handed must not alter what the key answers next
+    for z, sig in returned[:2]:
+        sig.r, sig.s = sig.s, N - sig.s
+        again = key.sign(z)
+        if (again.r, again.s) != ref[z]:
+            return f"sign({z}) changed after the caller edited the Signature returned earlier"
+    # sign_message / verify_message alternate between messages
+    for step, m in enumerate(msgs + msgs[:1]):
+        sig = key.sign_message(m)
+        want = ecref.ecdsa_sign(d, _h256int(m))
+        if (sig.r, sig.s) != want:
+            return f"sign_message call {step} on a reused key differs from the reference"
+        for m2 in msgs:
+            got = pub.verify_message(m2, sig)
+            if got is not (m2 == m):
+                return f"verify_message({m2.hex()}) of the signature over {m.hex()} answers {got!r}"
+    # every (digest, signature) combination on the ONE point object, first and last repeated
+    combos = [(i, j) for i in range(len(zs)) for j in range(len(zs))]
+    combos = combos[:1] + combos[::-1] + combos[:1]
+    for (i, j) in combos:
+        r_, s_ = ref[zs[j]]
+        got = pub.verify(zs[i], Signature(r_, s_))
+        want = ecref.ecdsa_verify(q, zs[i], r_, s_)
+        if got is not want:
+            return f"verify(z[{i}], signature over z[{j}]) on a reused point answers {got!r}, textbook ECDSA {want}"
+    # ONE Signature object edited in place
+    (r0, s0), (r1, s1) = ref[zs[0]], ref[zs[-1]]
+    sg = Signature(r0, s0)
+    if sg.der() != ecref.der(r0, s0) or pub.verify(zs[0], sg) is not True:
+        return "Signature object: der/verify wrong before any edit"
+    for (nr, ns, z) in ((r1, s0, zs[0]), (r1, s1, zs[-1]), (r1, N - s1, zs[-1]), (r0, N - s1, zs[0]), (r0, s0, zs[0])):
+        sg.r = nr
+        sg.s = ns
+        if sg.der() != ecref.der(nr, ns):
+            return f"Signature.der() after setting r, s in place is not the encoding of the current ({nr}, {ns})"
+        back = Signature.parse(sg.der())
+        if (back.r, back.s) != (nr, ns):
+            return "Signature.parse of the re-encoded edited signature differs"
+        got, want = pub.verify(z, sg), ecref.ecdsa_verify(q, z, nr, ns)
+        if got is not want:
+            return f"verify with a Signature edited in place to ({nr}, {ns}) answers {got!r}, textbook ECDSA {want}"
+    # Signature.parse called with different strings in turn
+    encs = [ecref.der(*ref[z]) for z in zs]
+    for e in encs + encs[::-1]:
+        back = Signature.parse(e)
+        if (back.r, back.s) != ecref.der_strict_parse(e):
+            return f"Signature.parse({e.hex()}) in a call history gives ({back.r}, {back.s})"
+    # the secret replaced in place: signing uses the current secret, and the old one again after restoring it
+    key.secret = d2
+    z = zs[0]
+    if key.deterministic_k(z) != ecref.rfc6979_k(d2, z.to_bytes(32, "big")):
+        return "deterministic_k after replacing key.secret is not the RFC 6979 nonce of the current secret"
+    sig = key.sign(z)
+    if (sig.r, sig.s) != ecref.ecdsa_sign(d2, z):
+        return "sign after replacing key.secret is not the signature of the current secret"
+    key.secret = d
+    sig = key.sign(z)
+    if (sig.r, sig.s) != ref[z]:
+        return "sign after restoring key.secret differs from the first signature"
+    return None
+
+
+PROPS = {"sign": p_sign, "verify_ref": p_verify_ref, "sign_k": p_sign_k, "der_rt": p_der_rt,
+         "key_reuse": p_key_reuse}
 
 # ---------------------------------------------------------------- generators
 
@@ -426,3 +521,17 @@ def generate(ctx):
             ctx.label("der_parse/malformed")
     for _ in range(ctx.n(100, 3000)):
         yield ("corr", "der_parse", [ctx.rbytes(r.randrange(0, 12))])
+
+    # ---- state kept across calls: one key / point / signature object through a call history
+    for i in range(ctx.n(3, 40)):
+        d, d2 = (SECRETS[i % len(SECRETS)] if i % 3 == 2 else rscalar(r)), rscalar(r)
+        z0 = r.getrandbits(r.randrange(1, 128))
+        zs = [z0, r.choice(DIGESTS) if i % 2 else rdigest(r), z0 + N if i % 3 == 0 else rdigest(r)]
+        order = list(range(len(zs)))
+        r.shuffle(order)
+        order += [order[0], r.randrange(len(zs)), order[1]]
+        msgs = [ctx.rbytes(r.randrange(0, 40)), ctx.rbytes(r.randrange(40, 70))]
+        ctx.label("reuse/one-key-many-digests")
+        if zs[2] == z0 + N:
+            ctx.label("reuse/z-and-z+n")
+        yield ("prop", "key_reuse", [d, d2, zs, order, msgs])
